@@ -3,8 +3,8 @@ import importlib
 
 # property -> list of (rule module, configs it needs in quick tier)
 PROPERTY_RULES = {
-    "C01": ["r_a10", "r_a9", "r_a8", "r_a2", "r_o3", "r_a12", "r_a13", "r_a4", "r_a16", "r_a17", "r_a19", "r_a18"],
-    "C02": ["r_a6", "r_a4", "r_a8", "r_a2", "r_o3", "r_e1", "r_b1", "r_a13", "r_a14", "r_a16", "r_a17", "r_a18", "r_a9", "r_c6"],
+    "C01": ["r_a10", "r_a9", "r_a8", "r_a2", "r_o3", "r_a12", "r_a13", "r_a4", "r_a16", "r_a17", "r_a19", "r_a18", "r_a20"],
+    "C02": ["r_a6", "r_a4", "r_a8", "r_a2", "r_o3", "r_e1", "r_b1", "r_a13", "r_a14", "r_a16", "r_a17", "r_a18", "r_a9", "r_c6", "r_a20"],
     "C03": ["r_a2", "r_a3", "r_a8", "r_a14", "r_b1"],
     "C04": ["r_a8", "r_e1", "r_a6", "r_a2", "r_b1", "r_o3", "r_a4", "r_a17", "r_a18"],
     "C05": ["r_b1", "r_o3", "r_a2", "r_a12"],
@@ -15,7 +15,7 @@ PROPERTY_RULES = {
     "C10": ["r_c2", "r_c1", "r_e1", "r_c5", "r_c7", "r_c8", "r_c4", "r_c3"],
     "C11": ["r_c2", "r_c1", "r_a6", "r_c5", "r_c4", "r_e1", "r_a8", "r_a9", "r_a16"],
     "C12": ["r_c4", "r_e1"],
-    "C13": ["r_e4", "r_a6", "r_c3", "r_e1", "r_a13", "r_a16", "r_c7", "r_a8"],
+    "C13": ["r_e4", "r_a6", "r_c3", "r_e1", "r_a13", "r_a16", "r_c7", "r_a8", "r_a20"],
     "C14": ["r_d1"],
     "C15": ["r_d2", "r_d3"],
     "C16": ["r_e1", "r_e2", "r_e5", "r_b1", "r_o3", "r_a2", "r_a9"],
@@ -79,7 +79,7 @@ CLAUSES = {
            "refcount overflow aborts; the length of a BytesMut / slice cursor grows only over bytes written just before (every safe set_len / advance_mut is a shrink or is dominated by a covering write at the first unexposed byte, A16); the tagged word in BytesMut.data keeps its bit fields in range and encodes vec position 0 whenever the pointer is the start of its Vec (A17, upper-bound analysis with control-block fields bounded at every constructor)",
     "C13": "in every safe &mut-self method with integer/range/slice arguments no state write can reach an argument-dependent panic (panic strictly before "
            "mutation); argument checks dominate the unchecked operations they protect in release builds; overflowing requests cannot wrap silently; "
-           "Bytes::slice produces every result (also the empty one) only after both range checks; an over-long truncate / resize argument cannot make unwritten bytes visible (A16)",
+           "Bytes::slice produces every result (also the empty one) only after both range checks; an over-long truncate / resize argument cannot make unwritten bytes visible (A16); every store to Bytes.len / Bytes.ptr narrows the view on every path (A20: offset + len' <= len entailed from the path's release-mode conditions)",
     "C09": "Chain touches its second half only on paths where the first is exhausted or fully accounted for (incl. chunks_vectored); "
            "Take truncates by min(inner, limit) and pairs every inner advance with limit -= same operand; the five leaf Bufs, the inherited defaults "
            "and IntoIter: remaining()/chunk() cut from one value, advance moves the cursor by exactly its argument, VecDeque lists front before back, "
